@@ -173,7 +173,9 @@ int vh_pthread_create(pthread_t* t, const pthread_attr_t* a, void* (*fn)(void*),
 }
 
 ssize_t vh_read(int fd, void* buf, size_t n) { ev_note(EV_readv); g_ev_fd = fd; g_ev_ptr = buf; g_ev_len = n; { ND(long long, ev_n); ASSUME(ev_n >= 0 && (size_t)ev_n <= n); EV_FAIL_OR((ssize_t)ev_n); } }
-static int g_ev_random_calls = 0;
+static unsigned long long g_ev_random_calls = 0;
+/* frame witness for loop contracts that havoc a whole memory object: one ghost byte the loop must leave alone */
+static unsigned char* g_fr_ptr = 0; static unsigned char g_fr_val = 0;
 void vh_srandom(unsigned seed) { (void)seed; }
 long vh_random(void) { ND(long, ev_rnd); g_ev_random_calls++; return ev_rnd; }
 
